@@ -133,6 +133,8 @@ func classify(m *uasc.MessageBody) out {
 				o.K, o.N = "svcerr", uint64(sc)
 			case sc == ua.StatusBadSecurityChecksFailed:
 				o.K = "secerr"
+			case sc == ua.StatusBadSequenceNumberInvalid:
+				o.K = "badseq"
 			default:
 				o.K, o.N = "status", uint64(sc)
 			}
